@@ -337,6 +337,8 @@ pub struct NodeSpec {
     pub alt_name: Option<String>,
     pub config: anemo::Config,
     pub jitter: Duration,
+    /// build the network with a (pass-through) user outbound request layer
+    pub user_outbound_layer: bool,
 }
 
 pub struct Node {
@@ -362,6 +364,7 @@ impl World {
             alt_name: None,
             config,
             jitter: Duration::from_millis(0),
+            user_outbound_layer: false,
         }
     }
 
@@ -390,6 +393,10 @@ impl World {
             .config(spec.config);
         if let Some(alt) = spec.alt_name {
             b = b.alternate_server_name(alt);
+        }
+        if spec.user_outbound_layer {
+            type Inner = tower::util::BoxService<Request<Bytes>, Response<Bytes>, anemo::Error>;
+            b = b.outbound_request_layer(tower::layer::layer_fn(|inner: Inner| inner));
         }
         let net = b.start(service).map_err(|e| anyhow::anyhow!("start failed: {e}"))?;
         assert_eq!(net.peer_id(), peer_id);
